@@ -283,7 +283,11 @@ fn run_batch(args: &[String]) -> i32 {
         res.runs += 1;
         res.ops += case.threads.iter().map(|t| t.len() as u64).sum::<u64>();
         for (k, v) in &rp.counters {
-            res.counters.add(k, *v);
+            if k == "sim_ns" {
+                res.sim_ns += *v as i128;
+            } else {
+                res.counters.add(k, *v);
+            }
         }
         res.counters.add("lock_acquisitions", parking_lot::ACQUISITIONS.swap(0, std::sync::atomic::Ordering::Relaxed));
         res.counters.inc(if sched.pct_depth == 0 { "schedule.random" } else { "schedule.pct" });
